@@ -29,6 +29,8 @@ from props.common import U, recording, term
 
 ID = "C09"
 RULE = (
+    "[environment] cases with an empty clip and every fourth other case are evaluated once more under numpy.errstate(all='raise'): same metrics and scores; "
+    "predicted score vectors are sparse (positive scores only) or dense (explicit zeros) by item parity, and the objects must hold the scores they were given. "
     "per task and vocabulary size K in {1,2,3}: every list of 1..n items (clips, or sound events in 1..2 clips incl. empty clips) "
     "where an item = (true tag list incl. none / out-of-vocabulary / two tags) x (predicted score vector on a dyadic grid; sum <= 1 for the "
     "single-label tasks). Each case is evaluated, re-evaluated under every permutation of the prediction list and the reversed annotation "
